@@ -20,14 +20,18 @@ def refVerdict (p : Program) : String :=
     let (r, st) := (Ref.evalStmts refFuel [[]] p.stmts .null).run.run {}
     let obsOf (env : Ref.Env) : String :=
       match Ref.lookupEnv "obs" env with
-      | some (.g c) => encVal (reify st.heap reifyDepth (st.cells.getD c .null))
+      | some (.g c) =>
+        -- a value nested deeper than the oracle's structural view is not printed cut off: no demand
+        if Ref.expandsWithin st.heap reifyDepth (st.cells.getD c .null) then encVal (reify st.heap reifyDepth (st.cells.getD c .null)) else "*"
       | _ => "-"
     match r with
     | .ok (flow, v, env) =>
       match flow with
       | .normal =>
         let final := match p.stmts.getLast? with
-          | some (.exprS ..) => if v matches .other "poison" then "*" else encVal (reify st.heap reifyDepth v)
+          | some (.exprS ..) =>
+            if v matches .other "poison" then "*"
+            else if Ref.expandsWithin st.heap reifyDepth v then encVal (reify st.heap reifyDepth v) else "*"
           | _ => "*"
         s!"m ok {final} obs={obsOf env} sp=0"
       | _ => "nopanic"
@@ -35,7 +39,8 @@ def refVerdict (p : Program) : String :=
       -- the observation array at the time of the failure: global `obs` is bound by the first statement
       let obs := match st.sites.find? (·.1 == 0) with
         | some (_, c) => (match p.stmts.head? with
-            | some (.letS _ _ "obs" _) => encVal (reify st.heap reifyDepth (st.cells.getD c .null))
+            | some (.letS _ _ "obs" _) =>
+              if Ref.expandsWithin st.heap reifyDepth (st.cells.getD c .null) then encVal (reify st.heap reifyDepth (st.cells.getD c .null)) else "*"
             | _ => "*")
         | none => "*"
       s!"m rterr {l} obs={obs}"
